@@ -390,6 +390,57 @@ theorem total_out_is_sum_stream (o : Oracle) (fuel : Nat) (mem : Mem) (calls : L
   obtain ⟨h1, h2⟩ := ffiRun_total (runOK_fresh hf) hok (by rw [hip]; omega) hT0 (by intro x hx; cases hx) h
   exact ⟨h2, h1⟩
 
+/-! ### the hypothesis `OracleBounded` (used by C11 / C20 / C01, no longer by C13)
+
+`OracleBounded o B` asks for ONE bound on all answers; what `encode_data`'s own storage sizing
+(`get_brotli_storage(2 * span + 527)`, C01 `encode_data_storage_suffices`) relies on is the per-request
+bound `OracleOK.fits` (`≤ 8 * (2 * span + 500)` bits for a request over `span` bytes).  The two are
+related as follows: `fits` gives `OracleBounded` as soon as the payload encoder is only asked — or only
+answers — about spans of at most `N` bytes; and every `OracleOK` oracle can be cut down to such a one
+without leaving `OracleOK`.  What is NOT proved is that the stream machine only issues requests of
+bounded span: `hi - lo ≤ 2^lgblock` is part of the state invariant, but `hi - lf` (the meta-block
+being accumulated) is bounded only by the emit policy of the payload encoder, which is an oracle. -/
+
+/-- the number of input bytes a payload-encoder request is about -/
+def reqSpan (r : Req) : Nat := if r.site = 2 then r.lo else max (r.hi - r.lo) (r.hi - r.lf)
+
+/-- `OracleBounded` is a consequence of `OracleOK.fits` for a payload encoder that answers nothing
+for requests over more than `N` bytes -/
+theorem oracle_bounded_of_fits (o : Oracle) (hO : OracleOK o) (N : Nat)
+    (hN : ∀ k r, N < reqSpan r → (o k r).bits = []) : OracleBounded o (8 * (2 * N + 500)) := by
+  intro k r
+  by_cases h : N < reqSpan r
+  · rw [hN k r h]; exact Nat.zero_le _
+  · have := hO.fits k r
+    unfold reqSpan at h
+    have hle : (if r.site = 2 then r.lo else max (r.hi - r.lo) (r.hi - r.lf)) ≤ N := by omega
+    have h2 : 8 * (2 * (if r.site = 2 then r.lo else max (r.hi - r.lo) (r.hi - r.lf)) + 500) ≤ 8 * (2 * N + 500) := by omega
+    exact Nat.le_trans this h2
+
+/-- cutting an oracle down to requests of at most `N` bytes -/
+def clampOracle (N : Nat) (o : Oracle) : Oracle :=
+  fun k r => if reqSpan r ≤ N then o k r else { result := true, emit := true, bits := [] }
+
+/-- the cut-down oracle still satisfies `OracleOK`, satisfies `OracleBounded` with the bound `fits`
+gives for `N` bytes, and agrees with the original on every request of at most `N` bytes -/
+theorem clampOracle_ok (o : Oracle) (hO : OracleOK o) (N : Nat) :
+    OracleOK (clampOracle N o) ∧ OracleBounded (clampOracle N o) (8 * (2 * N + 500)) ∧
+    (∀ k r, reqSpan r ≤ N → clampOracle N o k r = o k r) := by
+  have hok : OracleOK (clampOracle N o) := by
+    refine ⟨?_, ?_, ?_⟩
+    · intro k r; unfold clampOracle; split
+      · exact hO.result_true k r
+      · rfl
+    · intro k r h; unfold clampOracle; split
+      · exact hO.emits_when_forced k r h
+      · rfl
+    · intro k r; unfold clampOracle; split
+      · exact hO.fits k r
+      · exact Nat.zero_le _
+  refine ⟨hok, oracle_bounded_of_fits _ hok N ?_, ?_⟩
+  · intro k r h; unfold clampOracle; rw [if_neg (by omega)]
+  · intro k r h; unfold clampOracle; rw [if_pos h]
+
 end OverStream
 
 /-! ## non-vacuity -/
@@ -403,6 +454,8 @@ example : historyOK 40 [(⟨5, some 1000, 10, some 2000, true, 0, 40⟩, ⟨5, 0
   ⟨rfl, rfl, rfl, rfl, rfl, rfl, rfl, rfl, trivial⟩
 example : handOut [1, 2, 3, 4, 5] [.take 2, .push 1, .take 0] = ([[1, 2], [3], [4, 5]], []) := rfl
 example : multiDispatch 32 = .multi 16 := rfl
+example : BV.Stream.OracleOK (clampOracle 100 (fun _ _ => { bits := [true] })) :=
+  (clampOracle_ok _ ⟨fun _ _ => rfl, fun _ _ _ => rfl, fun _ _ => by simp; omega⟩ 100).1
 
 /-- a concrete history through `ffiRun` (quality 5; the payload encoder answers 41 one-bits): PROCESS
 3 bytes with no output room, FLUSH into 2 bytes, `TakeOutput(1)`, a 2-byte metadata block in two
